@@ -40,6 +40,7 @@ type c03Frame struct {
 	Junk     byte    `json:"junk"`   // pre-existing buffer content seed
 	Append   bool    `json:"append"` // AppendPayload (copy) vs SetPayload (in place)
 	First    int     `json:"first"`  // > 0: the headers are first given a payload of this length, then the real one (a body re-sized on the same header)
+	Keep     bool    `json:"keep,omitempty"` // IPv4 SetPayload only: the view returned for the first body is the one given the real body (IP4.SetPayload sizes its result from the total length, so a view that already has a body may be given another)
 	EchoType byte    `json:"echo_type"`
 	EchoCode byte    `json:"echo_code"`
 	EchoID   uint16  `json:"echo_id"`
@@ -147,6 +148,8 @@ func c03BuildFrame(c c03Frame) (frame []byte, tooBig bool, err error) {
 	if c.First > 0 && cap(ip4)-20 >= c.First {
 		if c.Append {
 			ip4.AppendPayload(append(make([]byte, 0, c.First), l4[:min(len(l4), c.First)]...), proto)
+		} else if c.Keep {
+			ip4 = ip4.SetPayload(ip4[:cap(ip4)][20:20+c.First], proto)
 		} else {
 			ip4.SetPayload(ip4[:cap(ip4)][20:20+c.First], proto)
 		}
@@ -791,6 +794,7 @@ func TestC03(t *testing.T) {
 		c.Payload = gen.Bytes(t, n, "payload")
 		if rapid.IntRange(0, 3).Draw(t, "resized") == 0 {
 			c.First = rapid.IntRange(1, 300).Draw(t, "first")
+			c.Keep = rapid.Bool().Draw(t, "keep")
 		}
 		return c
 	}, func(tb drv.TB, c c03Frame) { c03CheckFrame(tb, rec, "frames", c) })
@@ -825,13 +829,26 @@ func TestC03(t *testing.T) {
 		used := map[byte]bool{}
 		size := 3 // option 53
 		n := rapid.IntRange(0, 12).Draw(t, "nopt")
+		limit, many := 700, rapid.IntRange(0, 7).Draw(t, "manyOptions") == 0
+		off := rapid.IntRange(0, 253).Draw(t, "codeOffset")
+		if many { // option maps of 60..253 entries (every code once): "all DHCP option maps whose encoding fits"
+			n = rapid.SampledFrom([]int{60, 63, 64, 65, 66, 90, 127, 128, 129, 200, 253}).Draw(t, "nmany")
+			limit = 1200
+		}
 		for i := 0; i < n; i++ {
-			code := byte(rapid.OneOf(rapid.SampledFrom([]int{1, 3, 6, 33, 51, 54, 121, 12, 15, 31}), rapid.IntRange(1, 254)).Draw(t, "code"))
+			var code byte
+			var l int
+			if many {
+				code = byte(1 + (i*37+off)%254) // a permutation of 1..254 (37 is coprime to 254)
+				l = rapid.IntRange(0, 2).Draw(t, "olen")
+			} else {
+				code = byte(rapid.OneOf(rapid.SampledFrom([]int{1, 3, 6, 33, 51, 54, 121, 12, 15, 31}), rapid.IntRange(1, 254)).Draw(t, "code"))
+				l = rapid.OneOf(rapid.IntRange(0, 8), rapid.IntRange(0, 255)).Draw(t, "olen")
+			}
 			if used[code] || code == 53 {
 				continue
 			}
-			l := rapid.OneOf(rapid.IntRange(0, 8), rapid.IntRange(0, 255)).Draw(t, "olen")
-			if size+2+l > 700 {
+			if size+2+l > limit {
 				continue
 			}
 			used[code] = true
